@@ -217,6 +217,10 @@ theorem limited_read_is_a_run_from_lo (w : Wal) (h : WF w) (lo hi maxSize : Nat)
 /-- the loop the theorem above is about is the loop in the code (regenerated from `getEntries`) -/
 theorem scan_loop_in_code : Generated.walScanStopsAtTheLimit = true := by decide
 
+/-- a compaction leaves no key below the snapshot index behind, however many there are (regenerated from
+`deleteEntriesUntilIndex`; the model's compaction drops them all — seeded C04-F / C06-F bounded the number) -/
+theorem compaction_removes_every_key_below : Generated.walCompactionRemovesEveryKeyBelow = true := by decide
+
 /-- **C06 (`DeleteGroup`).** -/
 theorem delete_group_leaves_nothing (w : Wal) :
     (Wal.deleteGroup w).disk = ⟨[], none, none⟩ ∧ Wal.open_ (Wal.deleteGroup w).disk = Wal.fresh :=
